@@ -136,3 +136,21 @@ VARIANTS += [
       "    else:\n        return y\n"
       "    return int(y + dy)\n", "fire", "D6.4"),
 ]
+
+F = "moptipyapps/tsp/fea1p1_revn.py"
+VARIANTS += [
+    V("nop-move-replaced-by-neighbour-pair", F,
+      "            if (i == j) or ((i == 0) and (j == nm2)):\n"
+      "                continue  # either a nop or a complete reversal\n",
+      "            if i == j:\n                i -= 1\n"
+      "            if (i == 0) and (j == nm2):\n                continue\n",
+      "fire", "D6.5"),
+    V("undecided-nop-move-replaced-guarded", F,
+      "            if (i == j) or ((i == 0) and (j == nm2)):\n"
+      "                continue  # either a nop or a complete reversal\n",
+      "            if i == j:\n                if i == 0:\n"
+      "                    continue\n                i -= 1\n"
+      "            if (i == 0) and (j == nm2):\n                continue\n",
+      "undecided", "", "index arithmetic: no counterexample for n <= 8, "
+      "but not a proof"),
+]
